@@ -1,6 +1,12 @@
 // Command gen/c04 prints coq/Gen/C04Facts.v from the /repo working tree (terms, never verdicts):
-// the per-tx limit of Nibiru precompile calls and how it is checked, the order of the StateDB calls
-// made by precompile.OnRunStart and which precompile Run methods go through OnRunStart.
+// the per-tx limit of Nibiru precompile calls and how it is checked, the order of the StateDB steps
+// taken by precompile.OnRunStart, and which precompile Run methods go through OnRunStart.
+//
+// Steps are followed THROUGH helpers of the same package (transitively, in evaluation order), so that
+// extracting a few statements into a helper, moving functions between files or renaming locals does not
+// change a fact; a step that is only taken under a condition (inside the body of an if / switch / loop /
+// closure — the usual `if err = step(); err != nil { return }` is not a condition on the step) is
+// printed with a trailing "?".
 package main
 
 import (
@@ -12,6 +18,119 @@ import (
 
 	. "verifharness/genlib"
 )
+
+// event is one interesting action found in a function body, in evaluation order.
+type event struct {
+	name string // method / marker name
+	cond bool   // only executed under a condition
+}
+
+type walker struct {
+	funcs   map[string]*ast.FuncDecl // same-package functions and methods by name
+	classer func(n ast.Node) string  // "" = not interesting
+}
+
+// events returns the interesting actions of fd's body in evaluation order, inlining same-package callees.
+func (w *walker) events(fd *ast.FuncDecl, cond bool, visiting map[string]bool) []event {
+	if fd == nil || fd.Body == nil || visiting[fd.Name.Name] {
+		return nil
+	}
+	visiting[fd.Name.Name] = true
+	defer delete(visiting, fd.Name.Name)
+
+	type item struct {
+		key  token.Pos
+		node ast.Node
+		cond bool
+	}
+	var items []item
+	var stack []ast.Node
+	conditional := func() bool {
+		// is the node on top of the stack inside a conditionally executed part of an ancestor?
+		for i := 0; i+1 < len(stack); i++ {
+			p, c := stack[i], stack[i+1]
+			switch x := p.(type) {
+			case *ast.IfStmt:
+				if c == ast.Node(x.Body) || (x.Else != nil && c == x.Else) {
+					return true
+				}
+			case *ast.ForStmt:
+				if c == ast.Node(x.Body) {
+					return true
+				}
+			case *ast.RangeStmt:
+				if c == ast.Node(x.Body) {
+					return true
+				}
+			case *ast.SwitchStmt:
+				if c == ast.Node(x.Body) {
+					return true
+				}
+			case *ast.TypeSwitchStmt:
+				if c == ast.Node(x.Body) {
+					return true
+				}
+			case *ast.SelectStmt:
+				return true
+			case *ast.FuncLit, *ast.DeferStmt, *ast.GoStmt:
+				return true
+			case *ast.BinaryExpr:
+				if (x.Op == token.LAND || x.Op == token.LOR) && c == ast.Node(x.Y) {
+					return true
+				}
+			}
+		}
+		return false
+	}
+	ast.Inspect(fd.Body, func(n ast.Node) bool {
+		if n == nil {
+			stack = stack[:len(stack)-1]
+			return true
+		}
+		stack = append(stack, n)
+		switch x := n.(type) {
+		case *ast.CallExpr:
+			items = append(items, item{x.Rparen, n, conditional()}) // a call completes after its arguments
+		case *ast.IncDecStmt, *ast.BinaryExpr, *ast.AssignStmt:
+			items = append(items, item{n.End(), n, conditional()})
+		}
+		return true
+	})
+	sort.SliceStable(items, func(i, j int) bool { return items[i].key < items[j].key })
+
+	var out []event
+	for _, it := range items {
+		c := cond || it.cond
+		if name := w.classer(it.node); name != "" {
+			out = append(out, event{name, c})
+			continue
+		}
+		if call, ok := it.node.(*ast.CallExpr); ok {
+			callee := ""
+			switch f := call.Fun.(type) {
+			case *ast.Ident:
+				callee = f.Name
+			case *ast.SelectorExpr:
+				callee = f.Sel.Name
+			}
+			if sub := w.funcs[callee]; sub != nil {
+				out = append(out, w.events(sub, c, visiting)...)
+			}
+		}
+	}
+	return out
+}
+
+func render(evs []event) []string {
+	out := make([]string, len(evs))
+	for i, e := range evs {
+		out[i] = e.name
+		if e.cond {
+			out[i] += "?"
+		}
+	}
+	return out
+}
 
 func main() {
 	repo := Repo()
@@ -42,68 +161,96 @@ func main() {
 		}
 	}
 
-	// SavePrecompileCalledJournalChange: how the count is compared with the limit (normalised to
-	// "count REL limit"), and whether the journal append and the increment precede the check
+	// SavePrecompileCalledJournalChange (through helpers of package statedb): the journal append, the
+	// increment of the counter and the comparison with the limit, normalised to "count REL limit"
+	isCount := func(e ast.Expr) bool {
+		sel, ok := e.(*ast.SelectorExpr)
+		return ok && sel.Sel.Name == "multistoreCacheCount"
+	}
+	isLimit := func(e ast.Expr) bool {
+		id, ok := e.(*ast.Ident)
+		return ok && id.Name == "maxMultistoreCacheCount"
+	}
+	flip := map[string]string{">": "<", "<": ">", ">=": "<=", "<=": ">=", "==": "==", "!=": "!="}
+	sw := &walker{funcs: sf, classer: func(n ast.Node) string {
+		switch x := n.(type) {
+		case *ast.IncDecStmt:
+			if isCount(x.X) && x.Tok == token.INC {
+				return "incr"
+			}
+		case *ast.AssignStmt: // count += 1, count = count + 1
+			if len(x.Lhs) == 1 && len(x.Rhs) == 1 && isCount(x.Lhs[0]) {
+				if x.Tok == token.ADD_ASSIGN {
+					return "incr"
+				}
+				if be, ok := x.Rhs[0].(*ast.BinaryExpr); ok && x.Tok == token.ASSIGN && be.Op == token.ADD && (isCount(be.X) || isCount(be.Y)) {
+					return "incr"
+				}
+			}
+		case *ast.CallExpr:
+			if sel, ok := x.Fun.(*ast.SelectorExpr); ok && sel.Sel.Name == "append" {
+				if in, ok := sel.X.(*ast.SelectorExpr); ok && in.Sel.Name == "Journal" {
+					return "journal"
+				}
+			}
+		case *ast.BinaryExpr:
+			op := x.Op.String()
+			switch {
+			case isCount(x.X) && isLimit(x.Y):
+				return "count" + op + "limit"
+			case isLimit(x.X) && isCount(x.Y):
+				return "count" + flip[op] + "limit"
+			}
+		}
+		return ""
+	}}
+	saveEvents := render(sw.events(sf["SavePrecompileCalledJournalChange"], false, map[string]bool{}))
 	limitRel := "?"
 	incrBefore, appendBefore := false, false
-	if fd := sf["SavePrecompileCalledJournalChange"]; fd != nil && fd.Body != nil {
-		seenIncr, seenAppend := false, false
-		isCount := func(e ast.Expr) bool {
-			sel, ok := e.(*ast.SelectorExpr)
-			return ok && sel.Sel.Name == "multistoreCacheCount"
-		}
-		isLimit := func(e ast.Expr) bool {
-			id, ok := e.(*ast.Ident)
-			return ok && id.Name == "maxMultistoreCacheCount"
-		}
-		flip := map[string]string{">": "<", "<": ">", ">=": "<=", "<=": ">=", "==": "==", "!=": "!="}
-		for _, st := range fd.Body.List {
-			switch x := st.(type) {
-			case *ast.IncDecStmt:
-				if isCount(x.X) && x.Tok == token.INC {
-					seenIncr = true
-				}
-			case *ast.ExprStmt:
-				if strings.Contains(Nospace(x), ".Journal.append(") {
-					seenAppend = true
-				}
-			case *ast.IfStmt:
-				if be, ok := x.Cond.(*ast.BinaryExpr); ok {
-					op := be.Op.String()
-					switch {
-					case isCount(be.X) && isLimit(be.Y):
-						limitRel = "count" + op + "limit"
-					case isLimit(be.X) && isCount(be.Y):
-						limitRel = "count" + flip[op] + "limit"
-					}
-					if limitRel != "?" {
-						incrBefore, appendBefore = seenIncr, seenAppend
-					}
-				}
-			}
+	seenIncr, seenAppend := false, false
+	for _, e := range saveEvents {
+		switch {
+		case e == "incr":
+			seenIncr = true
+		case e == "journal":
+			seenAppend = true
+		case strings.HasPrefix(e, "count") && limitRel == "?":
+			limitRel = e
+			incrBefore, appendBefore = seenIncr, seenAppend
 		}
 	}
 
-	// OnRunStart: calls on the StateDB, in source order
-	var orsCalls []string
-	if fd := pf["OnRunStart"]; fd != nil && fd.Body != nil {
-		ast.Inspect(fd.Body, func(n ast.Node) bool {
-			call, ok := n.(*ast.CallExpr)
-			if !ok {
-				return true
+	// OnRunStart (through helpers of package precompile): the StateDB steps in evaluation order
+	steps := map[string]bool{"CacheCtxForPrecompile": true, "SavePrecompileCalledJournalChange": true, "CommitCacheCtx": true, "Commit": true}
+	pw := &walker{funcs: pf, classer: func(n ast.Node) string {
+		if call, ok := n.(*ast.CallExpr); ok {
+			if sel, ok := call.Fun.(*ast.SelectorExpr); ok && steps[sel.Sel.Name] {
+				return sel.Sel.Name
 			}
-			// the StateDB methods that matter for the order, whatever the local variable is called
-			if sel, ok := call.Fun.(*ast.SelectorExpr); ok {
-				switch sel.Sel.Name {
-				case "CacheCtxForPrecompile", "SavePrecompileCalledJournalChange", "CommitCacheCtx", "Commit":
-					orsCalls = append(orsCalls, sel.Sel.Name)
-				}
-			}
-			return true
-		})
-	}
+		}
+		return ""
+	}}
+	orsCalls := render(pw.events(pf["OnRunStart"], false, map[string]bool{}))
 
-	// every method named Run in x/evm/precompile: does it call OnRunStart ?
+	// every method named Run in x/evm/precompile: does it reach OnRunStart (directly or through helpers of
+	// the package), unconditionally, before anything else that matters here ?
+	rw := &walker{funcs: func() map[string]*ast.FuncDecl {
+		// do not inline OnRunStart itself: it is the marker
+		m := map[string]*ast.FuncDecl{}
+		for k, v := range pf {
+			if k != "OnRunStart" && k != "Run" {
+				m[k] = v
+			}
+		}
+		return m
+	}(), classer: func(n ast.Node) string {
+		if call, ok := n.(*ast.CallExpr); ok {
+			if id, ok := call.Fun.(*ast.Ident); ok && id.Name == "OnRunStart" {
+				return "OnRunStart"
+			}
+		}
+		return ""
+	}}
 	type runm struct {
 		recv string
 		uses bool
@@ -115,16 +262,13 @@ func main() {
 			if !ok || fd.Name.Name != "Run" || fd.Recv == nil || fd.Body == nil {
 				continue
 			}
-			recv := Nospace(fd.Recv.List[0].Type)
+			recv := strings.TrimPrefix(Nospace(fd.Recv.List[0].Type), "*")
 			uses := false
-			ast.Inspect(fd.Body, func(n ast.Node) bool {
-				if call, ok := n.(*ast.CallExpr); ok {
-					if id, ok := call.Fun.(*ast.Ident); ok && id.Name == "OnRunStart" {
-						uses = true
-					}
+			for _, e := range rw.events(fd, false, map[string]bool{}) {
+				if e.name == "OnRunStart" && !e.cond {
+					uses = true
 				}
-				return true
-			})
+			}
 			runs = append(runs, runm{recv, uses})
 		}
 	}
